@@ -204,6 +204,9 @@ func VfC06_ParseMore() {
 		"\t%i17 = frem " + vf + " %x, %x\n" +
 		"\t%i18 = call " + iw + " (" + iw + ")* @getfp()\n" + // the callee returns a function pointer: the type in front is the return type
 		"\t%i19 = call " + iw + " %i18(" + iw + " 1)\n" + // call through that pointer
+		"\t%i20 = extractvalue { " + iw + ", { i8, float, [2 x " + iw + "] } } undef, 1, 0\n" + // index paths whose indices differ from level to level
+		"\t%i21 = extractvalue { " + iw + ", { i8, float, [2 x " + iw + "] } } undef, 1, 2, 1\n" +
+		"\t%i22 = extractvalue { float, { i8, " + iw + " } } undef, 1, 1\n" +
 		"\tret void\n}\n"
 	m, err := ParseString("t.ll", src)
 	vfReach("C06.parsemore")
@@ -225,6 +228,7 @@ func VfC06_ParseMore() {
 		types.NewStruct(it, types.NewArray(3, types.Float)), vec(it), ptr(it, as), ptr(vec(it), 0), it, ptr(vec(it), as),
 		vec(types.Float), vec(it), vec(types.Float),
 		ptr(types.NewFunc(it, it), 0), it,
+		types.I8, it, it,
 	}
 	insts := m.Funcs[3].Blocks[0].Insts
 	vfAssert("C06.parsemore.count", len(insts) == len(want))
